@@ -154,6 +154,31 @@ pub fn multi_split(seed: u64, idx: u64) -> Scenario {
     sc
 }
 
+/// a write error, Ok(0) or EINTR at a seeded offset: what reaches the peer must be a prefix of the
+/// response (the whole response when the error is a retryable EINTR)
+pub fn write_faults(seed: u64, idx: u64) -> Scenario {
+    let (mut sc, mut rng) = base(seed, "write_fault_prefix", idx);
+    sc.sched = pick_sched(&mut rng);
+    sc.workers = rng.range(1, 2);
+    let pal = palette();
+    let (class, bytes) = pal[rng.below(pal.len())].clone();
+    sc.conns.push(Conn::simple(0, 0, bytes.clone(), class));
+    let mut c = Conn::simple(1, 1, bytes, class);
+    let at = *rng.pick(&[0usize, 1, 7, 64, 300, 600, 700, 800, 1000, 1500, 5000]);
+    match rng.below(4) {
+        0 => c.faults.write_fault = Some(WriteFault { at, kind: IoKind::Interrupted, sticky: false }),
+        1 => c.faults.write_fault = Some(WriteFault { at, kind: *rng.pick(&[IoKind::BrokenPipe, IoKind::ConnectionReset, IoKind::WouldBlock, IoKind::TimedOut]), sticky: true }),
+        2 => c.faults.write_zero_at = Some(at),
+        _ => {
+            c.faults.write_fault = Some(WriteFault { at, kind: IoKind::Interrupted, sticky: false });
+            c.faults.cuts = Cuts::Every(rng.range(1, 200));
+        }
+    }
+    c.twin = Some(0);
+    sc.conns.push(c);
+    sc
+}
+
 pub fn plan(tier: Tier, seed: u64) -> Vec<Campaign> {
     let mut v = vec![
         Campaign { name: "short_write_enumeration", budget: Budget::Count(enumeration_size()), exhaustive: true, gen: Box::new(move |i| enumerated(seed, i)) },
@@ -167,6 +192,15 @@ pub fn plan(tier: Tier, seed: u64) -> Vec<Campaign> {
             gen: Box::new(move |i| wellformed(seed, i)),
         },
     ];
+    v.push(Campaign {
+        name: "write_fault_prefix",
+        budget: match tier {
+            Tier::Quick => Budget::Count(3000),
+            Tier::Thorough => Budget::Time(1),
+        },
+        exhaustive: false,
+        gen: Box::new(move |i| write_faults(seed, i)),
+    });
     if tier == Tier::Thorough {
         v.push(Campaign { name: "random_multi_split", budget: Budget::Time(2), exhaustive: false, gen: Box::new(move |i| multi_split(seed, i)) });
     }
